@@ -198,3 +198,17 @@ def c03_7(ctx, r):
     c08_1b(ctx, r)
     c08_3(ctx, r)
     node_rows_go_to_node_file(ctx, r, "C03.7")
+
+
+@rule(P, "C03.8", "T11", "every producible (return code sign, status) cell falls into exactly one class (a killed job is failed, not unclassified)", min_obligations=4)
+def c03_8(ctx, r):
+    from .c20 import c20_2
+
+    c20_2(ctx, r)
+
+
+@rule(P, "C03.9", "T8", "every node file is found and moved: the rows collected are the rows written, from every batch", min_obligations=5)
+def c03_9(ctx, r):
+    from .c08 import c08_5
+
+    c08_5(ctx, r)
